@@ -373,8 +373,9 @@ policies:
   route:
   - topic: t
     exprs: [b]
-  headers:
-    0: d2s
+setKV:
+  topic: a
+  headers: b
 `},
 	"MQTTClientAuth": {`
 name: f2
